@@ -24,6 +24,7 @@ func TestSim(t *testing.T) {
 	simnode.InitLogging()
 	simcore.Main(t, "C04", []simcore.Scenario{
 		{Name: "measure-node-crash", Weight: 1, Run: runMeasureCrash},
+		{Name: "stream-node-crash", Weight: 1, Run: runStreamCrash},
 	})
 }
 
